@@ -3150,6 +3150,25 @@ ENTRY_POINTS = {
     "from_json / from_binary / from_dict": ["bermuda.io.json:json_to_triangle", "bermuda.io.binary_input:binary_to_triangle",
                                             "bermuda.io.json:dict_to_triangle"],
     "build_plot_data": ["bermuda.plot:build_plot_data"],
+    "Triangle set operators": [T_ + "__iter__", T_ + "__contains__", T_ + "__len__"],
+    "Triangle.__eq__ / __hash__ / __contains__ / len / iter": [T_ + "__eq__", T_ + "__hash__", T_ + "__contains__",
+                                                               T_ + "__len__", T_ + "__iter__", T_ + "__repr__"],
+    "sum": [T_ + "__radd__", T_ + "__add__"],
+    "TriangleSlice construction / indexing": ["bermuda.triangle:TriangleSlice.__init__",
+                                              "bermuda.triangle:TriangleSlice.__getitem__"],
+    "make_pred_triangle": [U_ + "extend:make_pred_triangle"],
+    "common_metadata / metadata_diff / Triangle.common_metadata / metadata_differences": [
+        "bermuda.base.metadata:common_metadata", "bermuda.base.metadata:metadata_diff", T_ + "common_metadata",
+        T_ + "metadata_differences", "bermuda.base.metadata:Metadata.as_dict", "bermuda.base.metadata:Metadata.as_flat_dict",
+        "bermuda.base.metadata:Metadata.__hash__", "bermuda.base.metadata:Metadata.__lt__"],
+    "Triangle cached accessors": [T_ + x for x in (
+        "slices", "periods", "fields", "evaluation_dates", "dev_lags", "right_edge", "is_incremental", "is_disjoint",
+        "is_multi_slice", "has_consistent_currency", "has_consistent_risk_basis", "has_consistent_values_shapes",
+        "is_right_edge_ragged", "num_samples", "evaluation_date", "experience_gaps", "field_cell_counts",
+        "field_slice_counts", "period_rows", "slice_period_rows", "derive_metadata")],
+    "monthly_ep_to_quarterly_ep / policy_years_covered": [U_ + "basis:monthly_ep_to_quarterly_ep",
+                                                          U_ + "basis:policy_years_covered"],
+    "triangle_json_load / triangle_json_loads": ["bermuda.io.json:triangle_json_load", "bermuda.io.json:triangle_json_loads"],
 }
 for _n in ("atas", "ballistic", "broom", "data_completeness", "growth_curve", "heatmap", "histogram", "mountain",
            "right_edge", "sunset", "drip", "hose"):
